@@ -42,6 +42,23 @@ Theorem C28_group_value_order_independent : forall rule l l',
   Permutation l l' -> grp false rule l = grp false rule l'.
 Proof. exact grp_perm. Qed.
 
+(* empty operand (the corner of C03_empty_operand_clause_without_grouping): the aggr clause with no grouping identifier left
+   yields exactly one datapoint, whose viral value is the rule applied to the empty group = null for every rule; the
+   standalone aggregation and any aggregation keeping an identifier yield none.  On non-empty operands both forms agree. *)
+Theorem C28_aggregation_of_empty_operand : forall old rules d by_ clause,
+  d_rows d = [] ->
+  d_rows (v_group old rules d by_ clause) =
+  match filter (fun n => mem_s n by_) (d_ids d), clause with
+  | [], true => [([], if has_v d then [VNull] else [])]
+  | _, _ => []
+  end.
+Proof. exact v_group_empty. Qed.
+Theorem C28_empty_group_is_null : forall old rule, grp old rule [] = VNull.
+Proof. exact grp_nil. Qed.
+Theorem C28_aggregation_forms_agree_on_nonempty : forall d by_ clause,
+  d_rows d <> [] -> group_keys d by_ clause = nubk (map (gproj d by_) (d_rows d)).
+Proof. exact group_keys_nonempty. Qed.
+
 (* REGRESSION WITNESS — the fold BEFORE the fix (list_reduce(list(col)) in physical order) was order-dependent:
    rule `when "A" and "B" then "C"; when "C" then "D"; else "E"`, values A, B, C gave D, values C, B, A gave E.
    The check replays the witness on the engine and requires the engine NOT to behave like this fold any more. *)
@@ -112,9 +129,11 @@ Example C28_examples :
   vals (veval false [("VAt_1", ex_rule)] env (XBin (XVar "DS_1") (XVar "DS_2"))) = Ok [VStr "C"; VStr "E"; VStr "D"; VStr "N"] /\
   vals (veval false [("VAt_1", ex_rule)] env (XJoin JLeft (XVar "DS_1") (XVar "DS_2"))) = Ok [VStr "C"; VStr "E"; VStr "D"; VStr "N"; VStr "N"] /\
   vals (veval false [("VAt_1", ex_rule)] env (XUn (XVar "DS_1"))) = Ok [VStr "E"; VStr "E"; VStr "D"; VStr "N"; VStr "E"] /\
-  vals (veval false [("VAt_1", ex_rule)] env (XAggr (XVar "DS_1") ["Id_1"])) = Ok [VStr "C"; VStr "D"; VStr "X"] /\
+  vals (veval false [("VAt_1", ex_rule)] env (XAggr (XVar "DS_1") ["Id_1"] false)) = Ok [VStr "C"; VStr "D"; VStr "X"] /\
   vals (veval false [("VAt_1", RAgg FMax)] env (XUn (XVar "DS_1"))) = Ok [VStr "X"; VStr "X"; VStr "X"; VStr "X"; VStr "X"] /\
   vrun false (fun _ => true) [] env [("DS_r", XVar "DS_1")] "DS_r" = Err "1-3-3-6" /\
+  vals (veval false [("VAt_1", ex_rule)] [("E", mkD ["Id_1"] ["VAt_1"] [])] (XAggr (XVar "E") [] true)) = Ok [VNull] /\
+  vals (veval false [("VAt_1", ex_rule)] [("E", mkD ["Id_1"] ["VAt_1"] [])] (XAggr (XVar "E") [] false)) = Ok [] /\
   vp_group_impl witness_rule [VStr "C"; VStr "B"; VStr "A"] = VStr "D" /\
   vp_group_before_fix witness_rule [VStr "C"; VStr "B"; VStr "A"] = VStr "E" /\
   enum_order_safe [VStr "A"; VStr "B"; VNull] [VC1 (VStr "A") (VStr "A"); VC1 (VStr "B") (VStr "B")] VNull = true /\
@@ -129,6 +148,9 @@ Print Assumptions C28_single_is_diagonal_pair.
 Print Assumptions C28_engine_fold_is_spec.
 Print Assumptions C28_engine_fold_order_independent.
 Print Assumptions C28_group_value_order_independent.
+Print Assumptions C28_aggregation_of_empty_operand.
+Print Assumptions C28_empty_group_is_null.
+Print Assumptions C28_aggregation_forms_agree_on_nonempty.
 Print Assumptions C28_fold_before_fix_order_dependent.
 Print Assumptions C28_fold_before_fix_partial.
 Print Assumptions C28_before_fix_is_spec_when_safe.
